@@ -294,15 +294,15 @@ Definition le_rsqrt (r den b : Qc) : bool :=
 
 Definition kfactor (ex : bool) (ntot : Qc) : Qc := if ex then qz 16 else (qz 4 * ntot + qz 16)%Qc.
 
-(* the result observed at one sample against the definition on the two columns *)
-Definition result_ok (p : prec) (ex : bool) (l1 l2 : list Qc) (r : fval) : bool :=
-  let n1 := qlen l1 in let n2 := qlen l2 in
+(* the result observed at one sample against the definition; the sets enter through their sizes n, sums of |x| (ab)
+   and sums of x^2 (sq), the definition's value w and its numerator *)
+Definition result_ok_w (p : prec) (ex : bool) (n1 n2 ab1 ab2 sq1 sq2 : Qc) (w : welch) (wn : Qc) (r : fval) : bool :=
   let k := kfactor ex (n1 + n2) in
   let u := uqc p in
-  match welch_def_c l1 l2 with
+  match w with
   | Some (num, den) =>
-      let ed := (k * u * qz 2 * (qsum_sq l1 / (n1 * n1) + qsum_sq l2 / (n2 * n2)))%Qc in
-      let en := (k * u * (qsum_abs l1 / n1 + qsum_abs l2 / n2))%Qc in
+      let ed := (k * u * qz 2 * (sq1 / (n1 * n1) + sq2 / (n2 * n2)))%Qc in
+      let en := (k * u * (ab1 / n1 + ab2 / n2))%Qc in
       if qc_leb den (qz 2 * ed)%Qc then true                 (* the float denominator cannot be told from 0 *)
       else match qc_of_fval r with
            | Some rq =>
@@ -313,26 +313,33 @@ Definition result_ok (p : prec) (ex : bool) (l1 l2 : list Qc) (r : fval) : bool 
   | None =>
       if ex then match r with
                  | NaN => true
-                 | PInf => qc_ltb 0 (wnum l1 l2)
-                 | NInf => qc_ltb (wnum l1 l2) 0
+                 | PInf => qc_ltb 0 wn
+                 | NInf => qc_ltb wn 0
                  | Fin _ _ => false
                  end
       else true
   end.
+Definition result_ok (p : prec) (ex : bool) (l1 l2 : list Qc) (r : fval) : bool :=
+  result_ok_w p ex (qlen l1) (qlen l2) (qsum_abs l1) (qsum_abs l2) (qsum_sq l1) (qsum_sq l2)
+              (welch_def_c l1 l2) (wnum l1 l2) r.
 
 (* sums, mean, var of one accumulator at one sample against the model state and the column it was fed *)
-Definition sums_ok (p : prec) (ex : bool) (ntot : Qc) (l : list Qc) (s : st) (n : Z) (lsum lsq : list fval) (j : nat) : bool :=
+Definition sums_ok_w (p : prec) (ex : bool) (ntot ab sq_ : Qc) (s : st) (n : Z) (lsum lsq : list fval) (j : nat) : bool :=
   let k := kfactor ex ntot in
   Qeq_bool (inject_Z n) (st_n s)
   && match lsum, lsq with
      | [], [] => Z.eqb n 0              (* the arrays do not exist before the first update *)
-     | _, _ => close_to ex (k * uqc p * qsum_abs l)%Qc (nth j lsum NaN) (st_sx s)
-               && close_to ex (k * uqc p * qsum_sq l)%Qc (nth j lsq NaN) (st_sxx s)
+     | _, _ => close_to ex (k * uqc p * ab)%Qc (nth j lsum NaN) (st_sx s)
+               && close_to ex (k * uqc p * sq_)%Qc (nth j lsq NaN) (st_sxx s)
      end.
-Definition meanvar_ok (p : prec) (ex : bool) (ntot : Qc) (l : list Qc) (m : mv) (vmean vvar : fval) : bool :=
+Definition sums_ok (p : prec) (ex : bool) (ntot : Qc) (l : list Qc) (s : st) (n : Z) (lsum lsq : list fval) (j : nat) : bool :=
+  sums_ok_w p ex ntot (qsum_abs l) (qsum_sq l) s n lsum lsq j.
+Definition meanvar_ok_w (p : prec) (ex : bool) (ntot n ab sq_ : Qc) (m : mv) (vmean vvar : fval) : bool :=
   let k := kfactor ex ntot in
-  close_abs (k * uqc p * qsum_abs l / qlen l)%Qc vmean (fst m)
-  && close_abs (k * uqc p * qz 2 * qsum_sq l / qlen l)%Qc vvar (snd m).
+  close_abs (k * uqc p * ab / n)%Qc vmean (fst m)
+  && close_abs (k * uqc p * qz 2 * sq_ / n)%Qc vvar (snd m).
+Definition meanvar_ok (p : prec) (ex : bool) (ntot : Qc) (l : list Qc) (m : mv) (vmean vvar : fval) : bool :=
+  meanvar_ok_w p ex ntot (qlen l) (qsum_abs l) (qsum_sq l) m vmean vvar.
 
 Definition st_eqb (a b : st) : bool := qc_eqb (st_n a) (st_n b) && qc_eqb (st_sx a) (st_sx b) && qc_eqb (st_sxx a) (st_sxx b).
 Definition welch_eqb (a b : welch) : bool :=
@@ -521,3 +528,63 @@ Definition acc_rows_ok (c : acc_case) : bool :=
 
 Definition acc_check (c : acc_case) : bool :=
   acc_rows_ok c && forallb (fun j => acc_sample c j st_zero [] (ac_ops c)) (seq 0 (ac_width c)).
+
+(* ---- large trace counts: rows are run-length encoded (row, repetitions); the accumulator state of the expanded set is
+   computed on the runs directly (weighted sums) — Proofs/Ttest.v: wst_is_expanded shows it is t_bsum of the expansion,
+   so welch_code on two such states is welch_def of the two expanded columns (welch_identity) *)
+Definition expand {A} (wl : list (A * positive)) : list A := flat_map (fun r => repeat (fst r) (Pos.to_nat (snd r))) wl.
+Definition qpos (c : positive) : Qc := Q2Qc (inject_Z (Zpos c)).
+Definition wcontrib (x : Qc) (c : positive) : st := (qpos c, qpos c * x, qpos c * (x * x))%Qc.
+Definition rl_val (j : nat) (row : list Z) : Qc := qz (nth j row 0).
+Definition wst (j : nat) (runs : list (list Z * positive)) : st :=
+  fold_right (fun r a => st_plus (wcontrib (rl_val j (fst r)) (snd r)) a) st_zero runs.
+Definition wabs (j : nat) (runs : list (list Z * positive)) : Qc :=
+  fold_right (fun r a => (qpos (snd r) * qc_abs (rl_val j (fst r)) + a)%Qc) 0%Qc runs.
+
+Record rl_case := {
+  rl_prec : prec;
+  rl_width : nat;
+  rl_set1 : list (list Z * positive);
+  rl_set2 : list (list Z * positive);      (* [] : one accumulator driven alone, no result *)
+  rl_n1 : Z; rl_sum1 : list fval; rl_sq1 : list fval; rl_mean1 : list fval; rl_var1 : list fval;
+  rl_n2 : Z; rl_sum2 : list fval; rl_sq2 : list fval; rl_mean2 : list fval; rl_var2 : list fval;
+  rl_result : list fval
+}.
+
+Definition rl_exact (p : prec) (s : st) : bool :=
+  Qle_bool (st_sxx s) (inject_Z (match p with F32 => 2 ^ 24 | F64 => 2 ^ 53 end)).
+
+Definition rl_acc_ok (p : prec) (ntot : Qc) (j : nat) (runs : list (list Z * positive))
+                     (n : Z) (lsum lsq lmean lvar : list fval) : bool :=
+  let s := wst j runs in
+  let ex := rl_exact p s in
+  sums_ok_w p ex ntot (wabs j runs) (st_sxx s) s n lsum lsq j
+  && match comp s with
+     | Some m => meanvar_ok_w p ex ntot (st_n s) (wabs j runs) (st_sxx s) m (fnth lmean j) (fnth lvar j)
+     | None => false
+     end.
+
+Definition rl_sample (c : rl_case) (j : nat) : bool :=
+  let p := rl_prec c in
+  let s1 := wst j (rl_set1 c) in
+  match rl_set2 c with
+  | [] => rl_acc_ok p (st_n s1) j (rl_set1 c) (rl_n1 c) (rl_sum1 c) (rl_sq1 c) (rl_mean1 c) (rl_var1 c)
+          && match rl_result c with [] => true | _ => false end
+  | _ =>
+      let s2 := wst j (rl_set2 c) in
+      let ntot := (st_n s1 + st_n s2)%Qc in
+      rl_acc_ok p ntot j (rl_set1 c) (rl_n1 c) (rl_sum1 c) (rl_sq1 c) (rl_mean1 c) (rl_var1 c)
+      && rl_acc_ok p ntot j (rl_set2 c) (rl_n2 c) (rl_sum2 c) (rl_sq2 c) (rl_mean2 c) (rl_var2 c)
+      && result_ok_w p (rl_exact p s1 && rl_exact p s2) (st_n s1) (st_n s2) (wabs j (rl_set1 c)) (wabs j (rl_set2 c))
+                     (st_sxx s1) (st_sxx s2) (welch_code s1 s2)
+                     (st_sx s1 / st_n s1 - st_sx s2 / st_n s2)%Qc (fnth (rl_result c) j)
+  end.
+
+Definition rl_check (c : rl_case) : bool :=
+  forallb (fun r => Nat.eqb (length (fst r)) (rl_width c)) (rl_set1 c ++ rl_set2 c)
+  && match rl_set1 c with [] => false | _ => true end
+  && forallb (rl_sample c) (seq 0 (rl_width c)).
+
+Definition rl_expected (c : rl_case) : list (option (Q * Q)) :=
+  map (fun j => option_map (fun w => (this (fst w), this (snd w))) (welch_code (wst j (rl_set1 c)) (wst j (rl_set2 c))))
+      (seq 0 (rl_width c)).
